@@ -24,6 +24,7 @@ import (
 	"io"
 	"math"
 	"regexp"
+	"regexp/syntax"
 	"sort"
 
 	"github.com/lindb/roaring"
@@ -206,8 +207,7 @@ func (b *TrieBucket) Suggest(prefix string, limit int) (rs []string) {
 
 // FindValuesByRegexp returns values by regexp expression.
 func (b *TrieBucket) FindValuesByRegexp(rp *regexp.Regexp, ids []uint32) []uint32 {
-	literalPrefix, _ := rp.LiteralPrefix()
-	literalPrefixByte := strutil.String2ByteSlice(literalPrefix)
+	literalPrefixByte := regexpScanPrefix(rp)
 	for _, kv := range b.kvs {
 		itr := kv.tree.NewPrefixIterator(literalPrefixByte)
 		for itr.Valid() {
@@ -218,6 +218,22 @@ func (b *TrieBucket) FindValuesByRegexp(rp *regexp.Regexp, ids []uint32) []uint3
 		}
 	}
 	return ids
+}
+
+// regexpScanPrefix returns the prefix which every matching key must start with.
+// The literal prefix of the expression is the prefix of the match, not of the key,
+// so it only narrows the scan if the expression is anchored at the beginning of the text.
+func regexpScanPrefix(rp *regexp.Regexp) []byte {
+	re, err := syntax.Parse(rp.String(), syntax.Perl)
+	if err != nil {
+		return nil
+	}
+	prog, err := syntax.Compile(re.Simplify())
+	if err != nil || prog.StartCond()&syntax.EmptyBeginText == 0 {
+		return nil
+	}
+	literalPrefix, _ := rp.LiteralPrefix()
+	return strutil.String2ByteSlice(literalPrefix)
 }
 
 // FindValuesByLike returns values by like expression.
